@@ -174,11 +174,14 @@ def gen_request(r, v, weights=None):
     return req, agent
 
 
-def gen_confusable_plan(r):
+CONFUSABLE_SEPS = ["->", "→", ":", "|", ",", " ", "/", "-", "=>", "\t", "."]
+
+
+def gen_confusable_plan(r, sep=None, fam=None):
     """titles that collide when glued together with a separator, differ only in case or surrounding blanks, or are prefixes of one another:
     whatever keys the implementation builds from titles, the edges must be exactly the ones named"""
-    sep = r.pick(["->", "→", ":", "|", ",", " ", "/", "-", "=>", "\t", "."])
-    fam = r.pick(["glue", "glue", "case", "prefix"])
+    sep = sep if sep is not None else r.pick(CONFUSABLE_SEPS)
+    fam = fam or r.pick(["glue", "glue", "case", "prefix"])
     if fam == "glue":
         a, b, c = r.pick([("A", "B", "C"), ("x", "y", "z"), ("1", "2", "3")])
         tasks = [{"title": a, "after": [b + sep + c]}, {"title": b + sep + c}, {"title": a + sep + b, "after": [c]}, {"title": c}]
